@@ -578,6 +578,111 @@ def generate(repo):
     g.item('stack.defaults', SSRC, stack_fn, stack_defaults,
            'def stackDefaultAoi : K := Num.ofInt 0\ndef stackDefaultAmbient : K := Num.ofInt 1')
 
+    # ------------------------------------------------------------------ batch plumbing (reshape / moveaxis index maps)
+    def stack_batch():
+        """`X = np.moveaxis(X.reshape((nlayers, -1)), 1, 0)` for indices and thicknesses, per-layer columns `[:, i]` /
+        `[:, -1]`, layer matrices with the batch axis moved to the front, `r.reshape(stack.shape[2:])`: emitted as index maps
+        over `ravel` / `unravel` (C order).  Recognised-and-different forms (reshape((-1, nlayers)), no axis swap, another
+        slice of stack.shape) are emitted AS THEY ARE, so the obligation `gen_stack_batch` fails; anything else is untranslatable."""
+        fn = stack_fn()
+        nl = [ast.unparse(st.value).replace(' ', '') for st in fn.body
+              if isinstance(st, ast.Assign) and ast.unparse(st.targets[0]) == 'nlayers']
+        if nl not in (['len(stack)'], ['stack.shape[0]'], ['len(indices)'], ['indices.shape[0]']):
+            raise Untranslatable(f'nlayers = {nl}')
+        ifs = [st for st in fn.body if isinstance(st, ast.If) and ast.unparse(st.test).replace(' ', '') in
+               ('indices.ndim>1', 'thicknesses.ndim>1', 'stack.ndim>2')]
+        if len(ifs) != 2 or any(i.orelse for i in ifs):
+            raise Untranslatable('expected the flatten block and the un-flatten block `if indices.ndim > 1:`')
+        fl, un = ifs
+
+        def flatten_form(name):
+            vals = [st.value for st in fl.body if isinstance(st, ast.Assign) and ast.unparse(st.targets[0]) == name]
+            if len(vals) != 1:
+                raise Untranslatable(f'{name} is not assigned once in the flatten block')
+            v = vals[0]
+            swap = False
+            t = ast.unparse(v).replace(' ', '')
+            if isinstance(v, ast.Call) and ast.unparse(v.func) in ('np.moveaxis', 'np.swapaxes') and len(v.args) == 3 and not v.keywords:
+                ax = [ast.unparse(a).replace(' ', '') for a in v.args[1:]]
+                if ax not in (['1', '0'], ['0', '1'], ['-1', '0'], ['0', '-1']):
+                    raise Untranslatable(f'axis move {ax}')
+                swap, v = True, v.args[0]
+            elif isinstance(v, ast.Attribute) and v.attr == 'T':
+                swap, v = True, v.value
+            if not (isinstance(v, ast.Call) and isinstance(v.func, ast.Attribute) and v.func.attr == 'reshape'
+                    and ast.unparse(v.func.value) == name and len(v.args) == 1 and not v.keywords):
+                raise Untranslatable(f'{name}: {t[:60]}')
+            shp = ast.unparse(v.args[0]).replace(' ', '')
+            if shp in ('(nlayers,-1)', '[nlayers,-1]'):
+                R = lambda p, q: f'a {p} (unravel bs {q})'
+            elif shp in ('(-1,nlayers)', '[-1,nlayers]'):
+                R = lambda p, q: f'(fun u => a (u.headD 0) u.tail) (unravel (k :: bs) ({p} * k + {q}))'
+            else:
+                raise Untranslatable(f'reshape target {shp}')
+            return R('j', 'b') if swap else R('b', 'j')
+        fi, ft = flatten_form('indices'), flatten_form('thicknesses')
+        if fi != ft:
+            raise Untranslatable('indices and thicknesses are flattened differently')
+        # per-layer columns in the batched branches
+        cols = set()
+        lasts = set()
+        for st in ast.walk(fn):
+            if isinstance(st, ast.If) and ast.unparse(st.test).replace(' ', '') == 'angles.ndim>1':
+                for sub in st.body:
+                    for n in ast.walk(sub):
+                        if isinstance(n, ast.Subscript) and isinstance(n.value, ast.Name) and n.value.id in ('indices', 'thicknesses', 'angles') \
+                                and isinstance(n.slice, ast.Tuple):
+                            idx = [ast.unparse(e).replace(' ', '') for e in n.slice.elts]
+                            (lasts if '-1' in idx else cols).add(tuple(idx))
+        if cols == {(':', 'i')}:
+            col = 'x b i'
+        elif cols == {('i', ':')}:
+            col = 'x i b'
+        else:
+            raise Untranslatable(f'batched column selectors {sorted(cols)}')
+        if lasts == {(':', '-1')}:
+            last = 'x b (k - 1)'
+        elif lasts == {('-1', ':')}:
+            last = 'x (k - 1) b'
+        else:
+            raise Untranslatable(f'batched last-layer selectors {sorted(lasts)}')
+        # layer matrices (2, 2, B) -> (B, 2, 2)
+        mj = [ast.unparse(st.value).replace(' ', '') for st in ast.walk(fn) if isinstance(st, ast.Assign) and ast.unparse(st.targets[0]) == 'Mjs'
+              and not isinstance(st.value, ast.List)]
+        if mj in (['[np.moveaxis(M,2,0)forMinMjs]'], ['[np.moveaxis(M,-1,0)forMinMjs]']):
+            front = 'true'
+        elif len(mj) == 1 and re.fullmatch(r'\[np\.moveaxis\(M,-?\d,-?\d\)forMinMjs\]', mj[0]):
+            front = 'false'
+        else:
+            raise Untranslatable(f'Mjs axis move {mj}')
+        # un-flatten
+        shapes = set()
+        for nm in ('r', 't'):
+            vals = [st.value for st in un.body if isinstance(st, ast.Assign) and ast.unparse(st.targets[0]) == nm]
+            if len(vals) != 1 or not (isinstance(vals[0], ast.Call) and ast.unparse(vals[0].func) == f'{nm}.reshape' and len(vals[0].args) == 1
+                                      and not vals[0].keywords):
+                raise Untranslatable(f'{nm} is not reshaped once')
+            shapes.add(ast.unparse(vals[0].args[0]).replace(' ', ''))
+        if len(shapes) != 1:
+            raise Untranslatable('r and t are reshaped differently')
+        m = re.fullmatch(r'stack\.shape\[(\d+):\]', next(iter(shapes)))
+        if not m:
+            raise Untranslatable(f'output shape {next(iter(shapes))}')
+        return ('def stackBatchIn {α : Type} (k : Nat) (bs : List Nat) (a : Nat → List Nat → α) (b j : Nat) : α := ' + fi + '\n'
+                f'def stackBatchCol {{α : Type}} (x : Nat → Nat → α) (i b : Nat) : α := {col}\n'
+                f'def stackBatchLast {{α : Type}} (x : Nat → Nat → α) (k b : Nat) : α := {last}\n'
+                f'def stackBatchMatrixAxisToFront : Bool := {front}\n'
+                f'def stackBatchOutShape (full : List Nat) : List Nat := full.drop {int(m.group(1))}\n'
+                'def stackBatchOut {α : Type} (full : List Nat) (rflat : Nat → α) (idx : List Nat) : α := '
+                'rflat (ravel (stackBatchOutShape full) idx)')
+    g.item('stack.batch', SSRC, stack_fn, stack_batch,
+           f'def stackBatchIn {{α : Type}} (k : Nat) (bs : List Nat) (a : Nat → List Nat → α) (b j : Nat) : α := {M}.batchIn bs a b j\n'
+           'def stackBatchCol {α : Type} (x : Nat → Nat → α) (i b : Nat) : α := x b i\n'
+           'def stackBatchLast {α : Type} (x : Nat → Nat → α) (k b : Nat) : α := x b (k - 1)\n'
+           'def stackBatchMatrixAxisToFront : Bool := true\n'
+           'def stackBatchOutShape (full : List Nat) : List Nat := full.drop 2\n'
+           f'def stackBatchOut {{α : Type}} (full : List Nat) (rflat : Nat → α) (idx : List Nat) : α := {M}.batchOut (full.drop 2) rflat idx')
+
     def lowercased():
         fn = stack_fn()
         for st in fn.body:
